@@ -1,8 +1,32 @@
 import Oracle.Util
+import MobiusModel.Merge
 /-! Oracle handlers for C14 (model functions exposed on the line protocol). -/
 namespace Oracle
 open Mobius
 
-def c14Handlers : List (String × Handler) := []
+def decodeAll : List String → Option (List Transaction)
+  | [] => some []
+  | s :: rest =>
+    match Transaction.decode (hexb s), decodeAll rest with
+    | .ok t, some ts => some (t :: ts)
+    | _, _ => none
+
+def c14Handlers : List (String × Handler) := [
+  -- c14perm <stream> <encoded transaction>… : does the stream parse to a permutation of the given transactions?
+  ("c14perm", fun (a : List String) => match a with
+    | stream :: sent =>
+      match parseStream (hexb stream), decodeAll sent with
+      | .ok got, some want => if got.isPerm want then s!"perm {got.length}" else s!"notperm {got.length} {want.length}"
+      | .ok _, none => "bad-sent"
+      | .err, _ => "unparseable err"
+      | .panic, _ => "unparseable panic"
+    | _ => "bad-op"),
+  -- the Write calls of a single-Write sender and of an io.Copy-style sender with buffer n
+  ("c14writes", fun (a : List String) => match a with
+    | [n, d] => match Transaction.decode (hexb d) with
+      | .ok t => s!"single {(singleWrite t).map List.length} copy {(copyWrite (num n) t).map List.length}"
+      | _ => "undecodable"
+    | _ => "bad-op")
+]
 
 end Oracle
